@@ -94,3 +94,33 @@ package roprometheus
 //@   props C19
 //@   maypanic
 //@   ensures [a-new-collector-per-pipeline|C19] newobject(result)
+
+//@ func wrapPipeWithObservability
+//@   note the instrumented composition: the in-counter and the lag summary before the operators, the out-counter and the subscription counter after them, in that order, around exactly the operators it is given
+//@   props C19
+//@   binds collector operators
+//@   scope collector operators
+//@   maypanic
+//@   track call.observeBeforePipe call.observeAfterPipe call.PipeOp3
+//@   ensures [the-counters-go-where-they-belong|C19] !panics ==> arg(call.observeBeforePipe, 0) == res(call.CounterVec.With) && arg(call.observeBeforePipe, 1) == res(call.SummaryVec.With) && arg(call.observeAfterPipe, 1) == collector.SubscriptionsTotal && count(call.CounterVec.With) == 2 && count(call.SummaryVec.With) == 1
+//@   ensures [observed-before-and-after-the-operators-it-is-given|C19] !panics ==> trace(call.observeBeforePipe(_, _), call.observeAfterPipe(_, _), call.PipeOp3(res(call.observeBeforePipe), operators, res(call.observeAfterPipe))) && result == res(call.PipeOp3)
+
+//@ func (*prometheusCollector).Describe
+//@   note a collector describes its five metrics when the licence is active, and nothing otherwise
+//@   props C19
+//@   binds ch
+//@   scope NotificationLagSeconds NotificationsInTotal NotificationsOutTotal OperatorProcessingTimeSeconds SubscriptionsTotal c ch
+//@   maypanic
+//@   track call.* SubscriptionsTotal.*
+//@   ensures [licensed-describes-the-five-metrics|C19] !panics && res(call.isPrometheusEnabled) == true ==> trace(call.isPrometheusEnabled(), SubscriptionsTotal.Describe(ch), call.MetricVec.Describe(_, ch), call.MetricVec.Describe(_, ch), call.MetricVec.Describe(_, ch), call.MetricVec.Describe(_, ch))
+//@   ensures [unlicensed-describes-nothing|C19] !panics && res(call.isPrometheusEnabled) == false ==> trace(call.isPrometheusEnabled())
+
+//@ func (*prometheusCollector).Collect
+//@   note a collector reports its five metrics when the licence is active, and nothing otherwise
+//@   props C19
+//@   binds ch
+//@   scope NotificationLagSeconds NotificationsInTotal NotificationsOutTotal OperatorProcessingTimeSeconds SubscriptionsTotal c ch
+//@   maypanic
+//@   track call.* SubscriptionsTotal.*
+//@   ensures [licensed-collects-the-five-metrics|C19] !panics && res(call.isPrometheusEnabled) == true ==> trace(call.isPrometheusEnabled(), SubscriptionsTotal.Collect(ch), call.MetricVec.Collect(_, ch), call.MetricVec.Collect(_, ch), call.MetricVec.Collect(_, ch), call.MetricVec.Collect(_, ch))
+//@   ensures [unlicensed-collects-nothing|C19] !panics && res(call.isPrometheusEnabled) == false ==> trace(call.isPrometheusEnabled())
